@@ -486,7 +486,7 @@ def run_shard(ctx):
     names = sorted(E)
     srcs = [{"kind": "template", "name": t} for t in corpus.TEMPLATES]
     srcs += [{"kind": "sample", "name": p.name} for p in corpus.sample_files()
-             if (ctx.thorough or p.stat().st_size < 60_000) and bounded_tables(p, 40000 if ctx.thorough else 6000)]
+             if p.stat().st_size < (200_000 if ctx.thorough else 60_000) and bounded_tables(p, 12000 if ctx.thorough else 6000)]
     if ctx.shard == 0:
         ctx.extra["corpus_documents"] = len(srcs)
     cellv = st.tuples(st.sampled_from([None, None, 1, "a", "", True, 2.5]), st.integers(1, 4), st.sampled_from([None, None, "ce1"]))
@@ -525,4 +525,4 @@ def run_shard(ctx):
     if ctx.shard == 0:
         ctx.extra["unclassified_entry_points"] = ", ".join(discovery()[:80])
         ctx.extra["entry_points_in_table"] = len(names)
-    ctx.run_given(mk, ctx.budget(9000, 70000))
+    ctx.run_given(mk, ctx.budget(9000, 45000))
